@@ -13,6 +13,8 @@ pub struct DefaultMetricLogWriter {
     latest_op_sec: u64,
     cur_metric_file: Option<RwLock<File>>,
     cur_metric_idx_file: Option<RwLock<File>>,
+    #[cfg(sentinel_verif)]
+    verif_cur_filename: String,
 }
 
 impl MetricLogWriter for DefaultMetricLogWriter {
@@ -68,6 +70,8 @@ impl DefaultMetricLogWriter {
             // Append the LF line separator.
             let s = item.to_string() + "\n";
             metric_out.write_all(s.as_ref())?;
+            #[cfg(sentinel_verif)]
+            sentinel_verif_rt::journal::write(&self.verif_cur_filename, s.as_bytes());
         }
         metric_out.flush()?;
         Ok(())
@@ -106,7 +110,17 @@ impl DefaultMetricLogWriter {
         // Use BigEndian here to keep consistent with DataOutputStream in Java.
         let mut idx_out = self.cur_metric_idx_file.as_ref().unwrap().write().unwrap();
         idx_out.write_all(&time.to_be_bytes())?;
+        #[cfg(sentinel_verif)]
+        sentinel_verif_rt::journal::write(
+            form_metric_idx_filename(&self.verif_cur_filename),
+            &time.to_be_bytes(),
+        );
         idx_out.write_all(&offset.to_be_bytes())?;
+        #[cfg(sentinel_verif)]
+        sentinel_verif_rt::journal::write(
+            form_metric_idx_filename(&self.verif_cur_filename),
+            &offset.to_be_bytes(),
+        );
         idx_out.flush()?;
         Ok(())
     }
@@ -121,6 +135,8 @@ impl DefaultMetricLogWriter {
                 let idx_filename = form_metric_idx_filename(filename.to_str().unwrap());
                 match fs::remove_file(filename) {
                     Ok(_) => {
+                        #[cfg(sentinel_verif)]
+                        sentinel_verif_rt::journal::remove(filename);
                         logging::info!("[MetricWriter] Metric log file removed in DefaultMetricLogWriter.remove_deprecated_files(), filename: {:?}", filename);
                     }
                     Err(err) => {
@@ -129,6 +145,10 @@ impl DefaultMetricLogWriter {
                 }
                 match fs::remove_file(idx_filename) {
                     Ok(_) => {
+                        #[cfg(sentinel_verif)]
+                        sentinel_verif_rt::journal::remove(form_metric_idx_filename(
+                            filename.to_str().unwrap(),
+                        ));
                         logging::info!("[MetricWriter] Metric index file removed in DefaultMetricLogWriter.remove_deprecated_files(), filename: {:?}", filename);
                     }
                     Err(err) => {
@@ -179,6 +199,8 @@ impl DefaultMetricLogWriter {
         }
         // Create new metric log file, whether it exists or not.
         let mf = fs::File::create(&filename)?;
+        #[cfg(sentinel_verif)]
+        sentinel_verif_rt::journal::create(&filename);
         logging::info!(
             "[MetricWriter] New metric log file created, filename {:?}",
             filename
@@ -186,12 +208,18 @@ impl DefaultMetricLogWriter {
 
         let idx_file = form_metric_idx_filename(&filename);
         let mif = fs::File::create(&idx_file)?;
+        #[cfg(sentinel_verif)]
+        sentinel_verif_rt::journal::create(&idx_file);
         logging::info!(
             "[MetricWriter] New metric log index file created, idx_file {:?}",
             idx_file
         );
 
         self.cur_metric_file = Some(RwLock::new(mf));
+        #[cfg(sentinel_verif)]
+        {
+            self.verif_cur_filename = filename.clone();
+        }
         self.cur_metric_idx_file = Some(RwLock::new(mif));
 
         Ok(())
